@@ -1,6 +1,7 @@
 """C04 — point lookup returns exactly the lowest-indexed intersecting cell."""
 from __future__ import annotations
 
+import random
 from fractions import Fraction
 
 import shapely
@@ -8,16 +9,25 @@ import shapely
 from harness import util
 from harness.gen import datasets as G
 from harness.gen import c04_extra as X
+from harness.gen import c04_extra6 as X6     # round 6
 from harness.gen import geomspec as S
 from harness.props.c01 import native_str
 
 ID = 'C04'
 MODULE = 'EmsModel.Props.C04'
 DRIVER = 'C04'
-REQUIRED = ['Ems.C04.lookup_none_iff', 'Ems.C04.lookup_least', 'Ems.C04.lookup_coherent',
+# theorems about what harness/trans_lookupsrc.py reads from the source of get_index_for_point
+EXTRA_MODULES = ['EmsModel.Props.C04Src']
+REQUIRED = ['Ems.C04.lookup_generated', 'Ems.C04.lookup_generated_order_independent', 'Ems.C04.lookup_generated_none_iff',
+            'Ems.C04.lookup_none_iff', 'Ems.C04.lookup_least', 'Ems.C04.lookup_coherent',
             'Ems.C04.lookup_order_independent', 'Ems.C04.firstHit_spec', 'Ems.C04.mem_hitSet',
             'Ems.C04.rect_contains_iff', 'Ems.C04.cf1d_hit_iff', 'Ems.C04.cf1d_hits_eq',
             'Ems.C04.cf1d_lookup_spec', 'Ems.C04.cf1d_lookup_none_iff']
+# ---- round 6: native index of the cell found / histories on one convention object (Props/C04Hist.lean)
+EXTRA_MODULES = list(globals().get('EXTRA_MODULES', [])) + ['EmsModel.Props.C04Hist']
+REQUIRED += ['Ems.C04.lookup_native_rowmajor', 'Ems.C04.lookup_native_rowmajor_2d',
+             'Ems.C04.lookup_native_not_other_kind', 'Ems.C04.session_reply_history_independent',
+             'Ems.C04.session_lookup_history_independent']
 RULE = ('datasets of every convention with holes, sheared lattices, concave / collinear UGRID faces; points of the '
         'classes: cell interiors, midpoints of (shared) edges, (shared) vertices, hole interiors, just outside the '
         'hull (half a lattice unit), far outside. Walked per convention (not drawn): overlapping cells (CF 1-D bounds '
@@ -38,7 +48,15 @@ RULE = ('datasets of every convention with holes, sheared lattices, concave / co
         'Compared with the model: get_index_for_point (linear index, native index, polygon ring) where the model uses '
         'its own exact point-in-polygon test, and the sorted STRtree hit list vs the exact hit set. Oracle: brute '
         'force over all cells with poly.intersects(pt), minimum index; select_point raises iff no hit. '
-        'Non-trivial: the hit set has >= 2 cells, or the point lies in a hole / outside; distinct by (recipe, point).')
+        'Non-trivial: the hit set has >= 2 cells, or the point lies in a hole / outside; distinct by (recipe, point). '
+        'Round 6 - "linear index, native index and polygon describe the same cell" judged against the generator: the '
+        "native index must be the default kind's row-major position of the linear index in the grid's declared (y, x) "
+        'shape (Built.grids), on every case. Extra cases from a stream of their own (25 per quick run, every '
+        'convention, UGRID meshes with as many faces as nodes on two rounds of three): the dataset lists its dimensions '
+        'in a drawn order (leading tagged variables cellno_<kind> stored x-major / other kinds first; select_point '
+        'must yield the tag of the cell found), and the convention object was asked earlier questions before the '
+        'first lookup (wind_index / ravel_index / select_index of every grid kind, the other kinds first or only). '
+        'One session per case (the questions, then a lookup) is replayed in the model (Ems.lookupSession).')
 TRUSTED = ['GEOS point-in-polygon predicate on exactly representable coordinates; STRtree.query contract']
 ASSUMPTIONS = ['query points are shapely Points with finite coordinates']
 
@@ -97,9 +115,9 @@ def examine_shared(ctx, recipe, shared, items) -> None:
     probe(ctx, built, c, {'recipe': recipe, 'shared': shared}, items, light=True)
 
 
-def probe(ctx, built, c, desc0, items, light=False) -> None:
+def probe(ctx, built, c, desc0, items, light=False, rng=None) -> None:
     """every point class against convention `c`, whose ground truth is `built`"""
-    rng = ctx.rng
+    rng = rng or ctx.rng          # (round 6: the extra cases draw from a stream of their own)
     recipe = built.recipe
     raw = built.polys
     vbits = S.geos_valid_bits(raw)
@@ -205,6 +223,87 @@ def probe(ctx, built, c, desc0, items, light=False) -> None:
                 ctx.oracle_fail('lookup-incoherent-index', desc, f'linear index {n} but native index {item.index} is cell {back}')
             if item.polygon is None or S.impl_ring(item.polygon) != util.expected_ring(kept[n]):
                 ctx.oracle_fail('lookup-incoherent-polygon', desc, f'polygon of the item is not the polygon of cell {n}')
+            # ---- round 6: the native index names that very cell - judged against the generator's ground truth (the
+            # default kind's row-major position of n in the grid's declared shape), not against emsarray's own
+            # index conversion, which may be consistently wrong in both directions
+            want = X6.expected_native(built, built.default_kind, n)
+            try:
+                got = native_str(built.conv, item.index)
+            except Exception as e:  # noqa: BLE001
+                got = f'ERR {type(e).__name__}'
+            if got != want:
+                ctx.oracle_fail('lookup-native-index-names-other-cell', desc,
+                                f'{ps} lies in cell {n}, which is {want} of the grid {built.grids[built.default_kind]}; '
+                                f'the native index returned is {got}')
+            cellno = built.extra.get('cellno', {}).get(built.default_kind)
+            if cellno and n == min(truth):
+                # ... and selecting the point yields the data stored for that cell (tag = linear index by construction)
+                try:
+                    sel = c.select_point(pt)
+                    tag = [int(v) for v in sel[cellno].values.reshape(-1)]
+                except Exception as e:  # noqa: BLE001
+                    tag = f'ERR {type(e).__name__}: {e}'
+                ctx.count('select-point-tag-checked')
+                if tag != [n]:
+                    ctx.oracle_fail('select-point-selects-other-cell', desc,
+                                    f'{ps} lies in cell {n}; select_point gave {cellno} = {tag} (the tag of a cell is its linear index)')
+            # ---- end round 6
+
+
+# ---- round 6 ---------------------------------------------------------------------------------------------------------
+def make_case6(ctx, rng, k):
+    """-> (recipe, extra6): the k-th extra case.  Walked by k: the convention; every third round of UGRID a mesh
+    with as many faces as nodes; non-square shapes for the two-dimensional grids on the even rounds (a transposed
+    shape is then another shape).  Drawn from `rng` (a stream of this block's own)."""
+    conv = G.CONVS[k % len(G.CONVS)]
+    rnd = k // len(G.CONVS)
+    if conv == 'ugrid' and rnd % 3 != 1:
+        recipe = X6.equal_sizes_mesh(rng)
+    elif conv == 'ugrid':
+        recipe = G.random_recipe(rng, conv, ctx.tier, max_w=3, max_h=2, coords_as='vars')
+    else:
+        for _ in range(20):
+            recipe = G.random_recipe(rng, conv, ctx.tier, max_n=5)
+            shape = (len(recipe['lat']), len(recipe['lon'])) if conv == 'cf1d' else (recipe['ny'], recipe['nx'])
+            if rnd % 2 == 1 or (shape[0] != shape[1] and min(shape) >= 2):
+                break
+    grids = G.build(recipe).grids
+    default = 'face'
+    extra6 = {'lead': X6.draw_lead(rng, grids, default), 'history': X6.draw_history(rng, grids, default, rnd, k)}
+    return recipe, extra6
+
+
+def examine6(ctx, rng, recipe, extra6, items) -> None:
+    built, c, answers = X6.build_case(G, recipe, extra6, native_str)
+    hist = extra6['history']
+    ctx.count(f"round6:{built.conv}:history={hist['what']}:{'other-kinds-only' if 'face' not in hist['kinds'] else 'all-kinds'}")
+    sizes = [X6.size_of(sh) for _, sh in built.grids.values()]
+    if len(set(sizes)) < len(sizes):
+        ctx.count('round6:two-grid-kinds-of-equal-size')
+    lead_dims = [d for _, dims in extra6['lead'] for d in dims]
+    fdims = list(built.grids['face'][0])
+    if len(fdims) == 2 and lead_dims.index(fdims[1]) < lead_dims.index(fdims[0]):
+        ctx.count('round6:x-dimension-listed-before-y')
+    desc0 = {'recipe': recipe, 'extra6': extra6}
+    n0 = len(items)
+    probe(ctx, built, c, desc0, items, light=True, rng=rng)
+    # one session in the model: the questions of the history with the object's own answers, then the first lookup
+    # of this case that found a cell (as it was answered AFTER those questions)
+    for (line, out, d) in items[n0:]:
+        if line.startswith('lookup ') and line.endswith(' auto') and out not in ('-', 'ERR'):
+            tail = line.split(' ', 3)[3]
+            sl, outs = X6.session_line(built, answers, tail)
+            items.append((sl, ';'.join(outs + [out]), {**d, 'op': sl}))
+            ctx.count('round6:session-in-model')
+            break
+
+
+def run6(ctx, items) -> None:
+    rng = random.Random(f'{ctx.seed}:{int(ctx.searching)}:c04-extra6')
+    for k in range(ctx.budget(25, 150)):
+        recipe, extra6 = make_case6(ctx, rng, k)
+        ctx.guarded(lambda: examine6(ctx, rng, recipe, extra6, items), {'recipe': recipe, 'extra6': extra6})
+# ---- end round 6 -----------------------------------------------------------------------------------------------------
 
 
 def make_recipe(ctx, k):
@@ -262,6 +361,7 @@ def run(ctx) -> None:
     for k in range(ctx.budget(10, 60)):
         recipe, shared = make_shared(ctx, k)
         ctx.guarded(lambda: examine_shared(ctx, recipe, shared, items), {'recipe': recipe, 'shared': shared})
+    run6(ctx, items)        # round 6 (draws from its own stream, after every draw of the earlier blocks)
     if ctx.searching and ctx.driver is None:
         ctx.evaluated(len(items))
         return
@@ -272,7 +372,9 @@ def run_one(ctx, inp):
     out = {}
     if inp.get('op') and ctx.driver:
         out['model'] = ctx.model([inp['op']])[0]
-    if inp.get('shared'):
+    if inp.get('extra6'):      # round 6
+        built, c, _ = X6.build_case(G, inp['recipe'], inp['extra6'], native_str)
+    elif inp.get('shared'):
         built, c = X.shared_pair(G, inp['recipe'], inp['shared'])
     else:
         built = G.build(inp['recipe'])
@@ -281,6 +383,8 @@ def run_one(ctx, inp):
         x, y = (Fraction(v) for v in inp['point'])
         item = c.get_index_for_point(shapely.Point(float(x), float(y)))
         out['impl'] = '-' if item is None else f'{int(item.linear_index)} {native_str(built.conv, item.index)}'
+        if item is not None:
+            out['native-index-of-that-cell'] = X6.expected_native(built, built.default_kind, int(item.linear_index))
         polys = c.polygons
         out['brute-force'] = [k for k, p in enumerate(polys) if p is not None and p.intersects(shapely.Point(float(x), float(y)))]
     return out
